@@ -103,6 +103,7 @@ SPEC_MUTANTS = [
     ("select-loop-skips-mask7", "MaskSelect.tla", "Step == /\\ i <= 7", "Step == /\\ i <= 6", "MC_MaskSelect.tla", "MC_MaskSelect_quick.cfg", "deadlock|Minimal|IndInv"),
     ("select-loop-greater", "MaskSelect.tla", "IF bestScore < 0 \\/ score[i] < bestScore", "IF bestScore < 0 \\/ score[i] > bestScore", "MC_MaskSelect.tla", "MC_MaskSelect_quick.cfg", "Minimal|IndInv"),
     ("file-ok-after-write-fault", "FileOps.tla", '[] fs.phase \\in {"create_failed", "write_failed"} -> F_ReturnErr(fs)', '[] fs.phase \\in {"create_failed", "write_failed"} -> F_ReturnOk(fs)', "FileIO.tla", "MC_FileIO.cfg", "FileAllOrError"),
+    ("file-shared-temp", "FileIO2.tla", "           /\\ fs' = [fs EXCEPT ![w] = F_Step(fs[w], fault[w], off[w])]", "           /\\ fs' = [fs EXCEPT ![w] = F_Step(fs[w], fault[w], off[w]), ![3 - w] = IF rel = \"samestem\" /\\ fs[w].phase = \"start\" /\\ @.phase = \"writing\" THEN [@ EXCEPT !.phase = \"write_failed\"] ELSE @]", "FileIO2.tla", "MC_FileIO2.cfg", "Independent"),
     ("setter-under-build", "Builder.tla", "Set(b, o, v) == /\\ ~Busy(b) /\\ Len(hist) < MaxLen", "Set(b, o, v) == /\\ Len(hist) < MaxLen", "MC_Builder.tla", "MC_Builder_EclMask_quick.cfg", "SnapshotIsRegisters"),
     ("text-border-dark", "Render.tla", "LET px(p, x) == IF p = 0 \\/ p = n+1 \\/ x = 0 \\/ x = n+1 THEN 0", "LET px(p, x) == IF p = 0 \\/ p = n+1 \\/ x = 0 \\/ x = n+1 THEN 1", "MC_Render.tla", "MC_Render_quick.cfg", "TextExact"),
 ]
